@@ -516,6 +516,24 @@ pub fn replay(b: &Value, out: &mut Out, seed: u64) -> (u64, bool, bool) {
             count += 1;
             continue;
         }
+        if kind == "flood" {
+            // `n` lookups from as many strangers, not recorded one by one (each is answered with a token; nothing is stored):
+            // for the model no time passes and nothing changes
+            let nreq = r["n"].as_u64().unwrap_or(0);
+            for j in 0..nreq {
+                let from = SocketAddrV4::new(ip_of(&format!("x{}", 100_000 + j)), 1001);
+                let q = krpc::get_peers(9, &nid("flooder"), &info_hash("flooded"), j % 2 == 1, false).encode();
+                let _ = sim.exchange(n, from, &q);
+                if sim.nodes[n].panicked {
+                    break;
+                }
+            }
+            ctx.tokens.push(None);
+            let snap = sim.snapshot(n).map(|s| projection(&ctx, &s.server)).unwrap_or(json!(null));
+            out.line(&json!({"e":"req","r":{"kind":"advance","ms":0,"flood":nreq},"o":{"kind":"none","code":0,"val":"","k":"","seq":-1,"peers":[],"tok":false},"A":snap}));
+            count += 1;
+            continue;
+        }
         if kind == "advance" {
             v::advance(Duration::from_millis(r["ms"].as_u64().unwrap_or(0)));
             ctx.tokens.push(None);
@@ -905,6 +923,28 @@ pub fn busy_token_probes(id0: u64, crowd: u32) -> Vec<Value> {
     v
 }
 
+/// A token survives any NUMBER of other lookups: between the lookup and the write the node answers tens of thousands of lookups
+/// from strangers (a popular node; or somebody who wants writes to fail) - seconds pass at most, the token is still good.
+pub fn flood_probes(id0: u64) -> Vec<Value> {
+    let from = json!({"ip": "a", "port": 1001});
+    let tok = json!({"kind":"issued","step":0});
+    let get = || json!({"kind":"get","from":from,"t":["i","v1"],"seqf":-1});
+    let writes = |steps: &mut Vec<Value>, k: &str| {
+        steps.push(json!({"kind":"putmut","from":from,"tok":tok,"k":k,"tk":k,"salt":"","slen":0,"seq":1,"cas":-1,"val":"w1","vlen":0,"sigok":true}));
+        steps.push(json!({"kind":"announce","from":from,"tok":tok,"t":"h1","nid":"n1","port":7,"implied":false}));
+    };
+    let mut v = vec![];
+    for (k, floods) in [vec![70_000u64], vec![16_383, 1, 16_384, 1], vec![33_000, 33_000]].iter().enumerate() {
+        let mut steps = vec![get()];
+        for (i, f) in floods.iter().enumerate() {
+            steps.push(json!({"kind":"flood","n":f}));
+            writes(&mut steps, if i % 2 == 0 { "k1" } else { "k2" });
+        }
+        v.push(json!({"b": id0 + k as u64, "filter": "allow", "caps": {"imm": 1000, "mut": 1000, "hash": 2000, "peers": 500}, "steps": steps}));
+    }
+    v
+}
+
 pub fn run(args: &Args) -> i32 {
     let seed = args.u64("seed", 1);
     let mut out = Out::create(&args.str("out", "/verif/work/server/trace.ndjson"));
@@ -955,7 +995,7 @@ pub fn run(args: &Args) -> i32 {
     let focus = args.str("focus", "C03");
     let mut rng = Rng::new(seed.wrapping_mul(77).wrapping_add(5));
     if n > 0 || args.u64("probes", 0) > 0 {
-        for b in lru_probes(2_000_000).into_iter().chain(crowd_probes(3_000_000)).chain(sig_replay_probes(5_000_000)).chain(rekey_probes(6_000_000)).chain(size_probes(7_000_000)) {
+        for b in lru_probes(2_000_000).into_iter().chain(crowd_probes(3_000_000)).chain(sig_replay_probes(5_000_000)).chain(rekey_probes(6_000_000)).chain(size_probes(7_000_000)).chain(flood_probes(8_000_000)) {
             let r = replay(&b, &mut out, seed);
             t.add(&b, r);
         }
